@@ -8,7 +8,7 @@ From Cfg Require Export Lib.Run Model.Crc16 Model.Partition Model.RedisKeys Gen.
 Import ListNotations.
 Open Scope N_scope.
 
-Record case := mkCase {
+Record build_case := mkCase {
   k_cfg : cfg;
   k_precomp : bool;            (* UsePrecomputedPartitionTags *)
   k_ch : list N;               (* channel *)
@@ -17,7 +17,7 @@ Record case := mkCase {
   k_ik : list N;               (* idempotency key *)
   o_broker : list (list N);    (* messageChannelID, historyListKey, historyStreamKey, historyMetaKey, resultCacheKey *)
   o_presence : list (list N);  (* presenceHashKey, presenceSetKey, userSetKey, userHashKey *)
-  o_map : list (list N);       (* messageChannelID, 6 buildKey keys, resultCacheKey, cleanupRegistrationKeyForChannel;
+  o_map : list (list N);       (* messageChannelID, 7 buildKey keys (incl. ":nil:"), resultCacheKey, cleanupRegistrationKeyForChannel;
                                   [] when the map broker rejects the configuration *)
   o_bextract : list N;         (* RedisBroker.extractChannel(isCluster, messageChannelID(ch)) *)
   o_mextract : list N;         (* RedisMapBroker.extractChannel(messageChannelID(ch)) ([] when rejected) *)
@@ -51,7 +51,7 @@ Definition model_tag (c : cfg) (precomp : bool) (idx : N) : option (list N) :=
     else Some (itoa idx)
   else Some [].
 
-Definition corr (c : case) : bool :=
+Definition corr_build (c : build_case) : bool :=
   let cf := k_cfg c in
   match model_tag cf (k_precomp c) (k_idx c) with
   | None => false
@@ -74,7 +74,7 @@ Definition all_same (l : list N) : bool :=
    keys and the PUB/SUB channel of each component hash (Redis' hash-tag rule +
    CRC16/XMODEM specification) to one slot; the receiving side recovers the
    channel; and redisSlot itself computes Redis' HASH_SLOT. *)
-Definition oracle (c : case) : bool :=
+Definition oracle_build (c : build_case) : bool :=
   let cf := k_cfg c in
   (if c_cluster cf then
      all_same (map redis_slot_spec (o_broker c)) &&
@@ -84,5 +84,59 @@ Definition oracle (c : case) : bool :=
   eqb_listN (o_bextract c) (k_ch c) &&
   (match o_map c with [] => true | _ => eqb_listN (o_mextract c) (k_ch c) end) &&
   eqb_listN (map redis_slot_spec (o_broker c ++ o_presence c ++ o_map c)) (o_slots c).
+
+(* ---- one real script call (EVALSHA captured by a fake RESP server) ---- *)
+Record call_case := mkCall {
+  s_cfg : cfg;
+  s_precomp : bool;
+  s_comp : N;                  (* 0 RedisBroker, 1 RedisPresenceManager, 2 RedisMapBroker *)
+  s_ch : list N;
+  s_idx : N;
+  s_tag : list N;
+  s_ik : list N;
+  s_keys : list (list N);      (* KEYS[] of the call, in order, empty strings included *)
+  s_chan : option (list N);    (* the PUB/SUB channel argument the script publishes to, when the script has one *)
+  s_slots : list N             (* redisSlot of every key, then of the channel *)
+}.
+
+Definition memLL (x : list N) (l : list (list N)) : bool := existsb (eqb_listN x) l.
+
+(* every string a component may legitimately hand to one of its scripts for (cfg, channel) *)
+Definition universe (cf : cfg) (comp : N) (tag ch ik : list N) : list (list N) :=
+  (if c_cluster cf then [] else [[]]) ++      (* unused KEYS stay "" outside cluster mode *)
+  (if comp =? 0 then broker_keys cf tag ch ik ++ [b_result cf tag ch []]
+   else if comp =? 1 then presence_keys cf ch
+   else map_keys cf tag ch ik).
+
+Definition model_chan (cf : cfg) (comp : N) (tag ch : list N) : list N :=
+  if comp =? 0 then b_message cf tag ch else m_message cf tag ch.
+
+Definition call_strings (c : call_case) : list (list N) :=
+  s_keys c ++ match s_chan c with Some x => [x] | None => [] end.
+
+Definition corr_call (c : call_case) : bool :=
+  let cf := s_cfg c in
+  match model_tag cf (s_precomp c) (s_idx c) with
+  | None => false
+  | Some tag =>
+      eqb_listN tag (s_tag c) &&
+      forallb (fun k => memLL k (universe cf (s_comp c) tag (s_ch c) (s_ik c))) (s_keys c) &&
+      match s_chan c with
+      | Some x => eqb_listN x (model_chan cf (s_comp c) tag (s_ch c))
+      | None => true
+      end &&
+      eqb_listN (map (redis_slot_go crc16tab) (call_strings c)) (s_slots c)
+  end.
+
+(* the property on one real script call: in cluster mode all its KEYS (empty
+   ones included: "" is slot 0) and its PUB/SUB channel are in one slot *)
+Definition oracle_call (c : call_case) : bool :=
+  (if c_cluster (s_cfg c) then all_same (map redis_slot_spec (call_strings c)) else true) &&
+  eqb_listN (map redis_slot_spec (call_strings c)) (s_slots c).
+
+Inductive case := KBuild (b : build_case) | KCall (c : call_case).
+
+Definition corr (c : case) : bool := match c with KBuild b => corr_build b | KCall k => corr_call k end.
+Definition oracle (c : case) : bool := match c with KBuild b => oracle_build b | KCall k => oracle_call k end.
 
 Definition run (cs : list case) := failing corr oracle cs.
